@@ -161,11 +161,11 @@ func Run(r *vk.Run) {
 	r.Assume("concurrent histories are time-stamped by one atomic counter taken before the call and after the return")
 	rp := &reporter{r: r, seen: map[string]int{}}
 
-	nSeq := r.N(300, 10000)
+	nSeq := r.N(3000, 100000)
 	nClean := nSeq * 6 / 10
 	nA := nSeq * 2 / 10
 	nB := nSeq - nClean - nA
-	nConc := r.N(100, 3000)
+	nConc := r.N(400, 6000)
 
 	// the case lists are a function of the seed only
 	rng := r.Rand("sequential")
